@@ -175,6 +175,8 @@ def check_group(ctx, g, parts, variants=VARIANTS):
     want = model_bytes(g, parts)
     ok = True
     has_default = any(c[0] == 'transaction' and c[8][0] == 'none' for c in g[1])
+    if len(_SAMPLES) < 12 and any(c[0] in ('origination', 'register_global_constant', 'transfer_ticket') or (c[0] == 'transaction' and c[8][0] == 'some') for c in g[1]):
+        _SAMPLES.append((g, want))
     for variant in variants:
         if variant == 'json-explicit' and not has_default:
             continue
@@ -201,6 +203,42 @@ def check_group(ctx, g, parts, variants=VARIANTS):
             ctx.mismatch('C06:forge-group:%s:%s' % (variant, cls), 'group %s\n pytezos: %s\n model:   %s' % (
                 json.dumps(R.group_json(g)), got.hex() if isinstance(got, bytes) else got, want.hex()), case)
     return ok
+
+
+_SAMPLES = []
+
+
+def concurrent_forgers(ctx):
+    """Forging is a function of the group: eight threads forging different groups (with Micheline payloads) at the same time get the bytes one thread gets."""
+    import sys, threading
+    if len(_SAMPLES) < 4:
+        return
+    bad = []
+
+    def work(k):
+        g, want = _SAMPLES[k % len(_SAMPLES)]
+        for _ in range(400):
+            got = impl_forge(g, 'json')
+            if got != want:
+                bad.append((k, got))
+                return
+    old = sys.getswitchinterval()
+    sys.setswitchinterval(1e-5)
+    try:
+        ts = [threading.Thread(target=work, args=(k,)) for k in range(8)]
+        for t in ts:
+            t.start()
+        for t in ts:
+            t.join()
+    finally:
+        sys.setswitchinterval(old)
+    ctx.count(('threads', 8), nontrivial=True)
+    ctx.replayed += 8 * 400
+    if bad:
+        k, got = bad[0]
+        g, want = _SAMPLES[k % len(_SAMPLES)]
+        ctx.mismatch('C06:concurrent:forge-differs', 'with 8 threads forging at the same time, group %s was forged as %s; alone it is %s (%d thread(s) saw a difference)' % (
+            json.dumps(R.group_json(g))[:300], got.hex()[:200] if isinstance(got, bytes) else got, want.hex()[:200], len(bad)), {'threads': True})
 
 
 def vectors(ctx):
@@ -287,6 +325,7 @@ def run(ctx):
         run_families(ctx, ['mix'], vecs, seen, 'OpForge_mix', maxlen=3)
     ctx.second_pass()
     ctx.exhaustive = True
+    concurrent_forgers(ctx)
 
 
 def replay(ctx, rep):
@@ -294,6 +333,9 @@ def replay(ctx, rep):
     if 'vector' in c:
         vecs = vectors(ctx)
         run_families(ctx, ['vec'], vecs, {}, 'OpForge_vec')
+    elif c.get('threads'):
+        run(ctx)
+        ctx.mismatches = [m for m in ctx.mismatches if m.signature == rep.get('signature')]
     elif c.get('leg') == 'A':
         print('Leg A finding (specification): re-run ./check C06 %s' % rep.get('tier', 'quick'))
         return 1
